@@ -8,6 +8,7 @@ package kcp
 // This file is overlaid into /repo as zzverif_common_test.go by ./check.
 
 import (
+	"sync/atomic"
 	"encoding/binary"
 	"encoding/json"
 	"fmt"
@@ -204,6 +205,7 @@ type vviolation struct {
 }
 
 type vrec struct {
+	lastCase atomic.Value // json.RawMessage of the case logged last
 	mu           sync.Mutex
 	prop         string
 	env          venv
@@ -232,7 +234,92 @@ func newRec(t testing.TB, prop string) *vrec {
 			r.casesLog = f
 		}
 	}
+	r.startLockWatch()
 	return r
+}
+
+// ---------------------------------------------------------------------------
+// Lock watch. A goroutine that waits for a sync.Mutex is not "durably blocked"
+// for testing/synctest: if library code returns (or blocks) with a session or
+// listener lock held, everybody else queues up behind it, the bubble's clock
+// stands still, and no oracle ever runs. A goroutine started outside every
+// bubble looks at the goroutine dump when nothing has moved for two minutes of
+// real time; a goroutine that has been waiting for a lock *at a call site in
+// library code* for two minutes or more is the evidence (healthy code holds
+// these locks for microseconds).
+
+var verifHeartbeat atomic.Int64 // cases begun, datagrams delivered, simulator events
+
+var livenessProps = map[string]bool{"C02": true, "C03": true, "C11": true, "C13": true, "C15": true, "C19": true}
+
+var lockWaitRe = regexp.MustCompile(`^goroutine (\d+) \[(sync\.(?:RW)?Mutex\.R?Lock)[^\]]*?(\d+) minutes[^\]]*\]:`)
+
+// findLongLockWait returns the dump of the first goroutine that has waited two
+// minutes or more for a lock whose Lock call is in library (not harness) code.
+func findLongLockWait(dump string) string {
+	for _, g := range strings.Split(dump, "\n\n") {
+		m := lockWaitRe.FindStringSubmatch(g)
+		if m == nil {
+			continue
+		}
+		if mins, _ := strconv.Atoi(m[3]); mins < 2 {
+			continue
+		}
+		lines := strings.Split(g, "\n")
+		// frames: a function line followed by a "\t/path/file.go:NN" line
+		for i := 1; i+1 < len(lines); i += 2 {
+			fn := lines[i]
+			if strings.HasPrefix(fn, "sync.") || strings.HasPrefix(fn, "internal/") || strings.HasPrefix(fn, "runtime.") {
+				continue
+			}
+			// the caller of Lock
+			if strings.HasPrefix(fn, "github.com/xtaci/kcp-go/v5.") && !strings.Contains(lines[i+1], "/zzverif_") {
+				return g
+			}
+			break
+		}
+	}
+	return ""
+}
+
+func (r *vrec) startLockWatch() {
+	if r.env.outDir == "" {
+		return
+	}
+	go func() {
+		last, since := int64(-1), time.Now()
+		for {
+			time.Sleep(20 * time.Second)
+			if hb := verifHeartbeat.Load(); hb != last {
+				last, since = hb, time.Now()
+				continue
+			}
+			if time.Since(since) < 125*time.Second {
+				continue
+			}
+			buf := make([]byte, 64<<20)
+			g := findLongLockWait(string(buf[:runtime.Stack(buf, true)]))
+			since = time.Now()
+			if g == "" {
+				continue
+			}
+			if len(g) > 6000 {
+				g = g[:6000]
+			}
+			var desc any
+			if d, ok := r.lastCase.Load().(json.RawMessage); ok {
+				desc = d
+			}
+			if livenessProps[r.prop] {
+				r.violation(r.prop+" a library lock was never released: goroutines wait for it for ever", "nothing has moved for two minutes of real time and this goroutine has been waiting for a lock taken in library code all that time (inside a synctest bubble such a state also stops the virtual clock, so no other oracle can run):\n"+g, desc)
+			} else {
+				r.inconcl("frozen: a goroutine has been waiting for a library lock for minutes; the case cannot be decided by this check (the checks of C02/C03/C11/C13/C15/C19 report this state as a violation):\n" + g)
+			}
+			r.note("done", true)
+			r.flush()
+			os.Exit(0)
+		}
+	}()
 }
 
 func (r *vrec) seed(parts ...uint64) *vrng {
@@ -246,6 +333,8 @@ func (r *vrec) beginCase(desc any) {
 		return
 	}
 	b, _ := json.Marshal(desc)
+	r.lastCase.Store(json.RawMessage(b))
+	verifHeartbeat.Add(1)
 	r.mu.Lock()
 	r.casesLog.Write(append(b, '\n'))
 	r.mu.Unlock()
